@@ -284,6 +284,9 @@ def role_of(f):
     return {"site": f.get("ob", "").split(" |")[0]}
 
 
+K_ORD = ["c19_ord_ieee_dual", "c19_ord_ieee_dual2", "c19_ord_ieee_number"]
+
+
 def run(tier, seed):
     ev = C.Evidence(PID, tier, seed, "model_checking")
     L = 2 if tier == "quick" else 3
@@ -292,14 +295,28 @@ def run(tier, seed):
     tot = summarize(results)
     if tot["panics"]:
         tot["undecided"].append(f"panic leaves: {tot['panics'][:3]}")
+    # K part: the ordering clause in true IEEE semantics (NaN, signed zeros, infinities, subnormals), which the real-number encoding cannot see
+    from vlib import kspec
+    kout = kspec.run_kani_part(PID, K_ORD, 900 if tier == "quick" else 3000, jobs=3, seed=seed)
+    tot["undecided"] += kout["undecided"]
+    for role, path, text in kout["violations"]:
+        tot["fails"].append({"ob": role["harness"], "reproduced": True, "mismatch": [text], "scenario": role})
+    kres = kout["results"]
+    ev.cov(kani_harnesses=[{"harness": h, "status": kres[h]["status"], "checks": kres[h].get("checks"), "solver_s": kres[h].get("solver_s"), "stubs": kres[h].get("stubs")} for h in K_ORD])
+    obs = obs + [dict(id=h) for h in K_ORD]
+    results = results + [{"ob": h, "paths": 1, "checks": kres[h].get("checks", 0), "holds": kres[h].get("checks", 0) if kres[h]["status"] == "success" else 0} for h in K_ORD]
     standard_finish(PID, ev, obs, results, tot, role_of,
-                    bounds={"names_per_operand": f"0..{L} (Dual), 0..{min(L, 2)} (Dual2), symbolic", "values": "symbolic reals, both signs; divisor != 0 for %",
-                            "sum_terms": "0..3 quick / 0..4 thorough", "outside": "NaN/inf/rounding (comparisons decided over the reals, so NaN => None is not covered); longer sums"},
+                    bounds={"ordering_ieee": "Kani/CBMC, bit-precise: every pair of 64-bit patterns (NaNs, +-0, infinities, subnormals) for Dual/Dual, Dual/float, float/Dual, the same for Dual2, and every permitted kind pairing of the Number container; numbers without variables (the clause is about the value only)",
+                            "names_per_operand": f"0..{L} (Dual), 0..{min(L, 2)} (Dual2), symbolic", "values": "symbolic reals, both signs; divisor != 0 for %",
+                            "sum_terms": "0..3 quick / 0..4 thorough", "outside": "NaN/inf/rounding for everything except the ordering clause; longer sums"},
                     rule="obligation = (impl body or trait function, operand sizes); explored into feasible paths; one validity query per path",
-                    assumptions=["reals instead of IEEE floats", "trunc(x) modelled as the integer part toward zero", "mirsym library models"])
+                    assumptions=["reals instead of IEEE floats (M part); K part: std::hash::RandomState::new stubbed with a fixed key (no clause depends on hash values)", "trunc(x) modelled as the integer part toward zero", "mirsym library models"])
 
 
 def replay(path):
     obj = json.load(open(path))
+    if obj.get("engine") == "kani":
+        from vlib import kspec
+        return kspec.replay_file(path)
     print(json.dumps(obj.get("native"), indent=1)[:3000])
     return 1 if obj.get("reproduced") else 0
